@@ -121,5 +121,103 @@ mod __verif_c26 {
         rows_frame_case(any_bound(), any_bound());
     }
 
+    /// RANGE frames with a numeric offset: one BIGINT ORDER BY key, three rows, no NULLs.
+    fn range_case(desc: bool, preceding: bool) {
+        use crate::planner::SortExpr;
+        use arrow::buffer::ScalarBuffer;
+        let keys: [i64; 3] = [kani::any(), kani::any(), kani::any()];
+        // keys small enough that key +- k is exact in f64, and sorted in the ORDER BY direction (ties allowed)
+        kani::assume(keys[0] > -(1 << 20) && keys[0] < (1 << 20));
+        kani::assume(keys[1] > -(1 << 20) && keys[1] < (1 << 20));
+        kani::assume(keys[2] > -(1 << 20) && keys[2] < (1 << 20));
+        if desc {
+            kani::assume(keys[0] >= keys[1] && keys[1] >= keys[2]);
+        } else {
+            kani::assume(keys[0] <= keys[1] && keys[1] <= keys[2]);
+        }
+        let k: u64 = kani::any();
+        kani::assume(k < (1 << 20));
+        let i: usize = kani::any();
+        kani::assume(i < 3);
+        let arr: ArrayRef = Arc::new(Int64Array::new(ScalarBuffer::from(vec![keys[0], keys[1], keys[2]]), None));
+        let order = [arr];
+        let w = WindowExpr {
+            func: WindowFunc::RowNumber,
+            args: Vec::new(),
+            partition_by: Vec::new(),
+            order_by: vec![SortExpr {
+                expr: Expr::Wildcard,
+                direction: if desc { SortDirection::Desc } else { SortDirection::Asc },
+                nulls: NullOrdering::NullsLast,
+            }],
+            frame: WindowFrame {
+                units: FrameUnits::Range,
+                start: FrameBound::UnboundedPreceding,
+                end: FrameBound::UnboundedFollowing,
+                explicit: true,
+            },
+        };
+        let part = 0usize..3usize;
+        let partitions = [0usize..3usize];
+        let peers = [0usize..3usize];
+        let peer_of = [0usize; 3];
+        let ctx = SortedInput { n: 3, partitions: &partitions, peers: &peers, peer_of: &peer_of, args: &[], order: &order, w: &w };
+        // SQL: with ORDER BY ASC, `k PRECEDING` bounds the key at cur - k and `k FOLLOWING` at cur + k; DESC mirrors it
+        let cur = keys[i] as i128;
+        let delta = k as i128;
+        let limit = if preceding == !desc { cur - delta } else { cur + delta };
+        let start = match range_offset_bound(&ctx, &part, i, k, preceding) {
+            Ok(v) => v,
+            Err(_) => {
+                assert!(false, "C26.range_offset_bound_never_errors_on_bigint_key");
+                return;
+            }
+        };
+        let end = match range_offset_end(&ctx, &part, i, k, preceding) {
+            Ok(v) => v,
+            Err(_) => {
+                assert!(false, "C26.range_offset_end_never_errors_on_bigint_key");
+                return;
+            }
+        };
+        kani::cover!(start == 1 && end == 2);
+        assert!(start <= 3 && end <= 3, "C26.range_bounds_inside_partition");
+        // row j is at/after the START bound iff its key is on the frame side of `limit`, INCLUSIVE
+        let j: usize = kani::any();
+        kani::assume(j < 3);
+        let kj = keys[j] as i128;
+        let after_start = if !desc { kj >= limit } else { kj <= limit };
+        let before_end = if !desc { kj <= limit } else { kj >= limit };
+        assert!((j >= start) == after_start, "C26.range_start_bound_is_inclusive_first_key_inside");
+        assert!((j < end) == before_end, "C26.range_end_bound_is_inclusive_last_key_inside");
+        std::mem::forget(w);
+        std::mem::forget(order);
+    }
+
+    // @harness tiers=thorough timeout=2400
+    // @encodes physical::operators::window::range_offset_bound, physical::operators::window::range_offset_end, physical::operators::window::range_frame_key, physical::operators::window::range_key
+    // @bounds RANGE frames with offset over one BIGINT ORDER BY key ASC: a partition of 3 rows with symbolic sorted keys |key| < 2^20 (ties allowed, no NULLs), every row i, offsets k < 2^20, both `k PRECEDING` and `k FOLLOWING` (iterated concretely)
+    // @oracle inclusive SQL bounds in exact integers: j >= start <=> key_j >= cur -/+ k, j < end <=> key_j <= cur -/+ k
+    // @out NULL keys, float/date keys, more than 3 rows, the aggregate over the frame (Arrow kernels)
+    // @unwindset range_offset_bound:5 range_offset_end:5
+    #[kani::proof]
+    #[kani::unwind(5)]
+    fn range_offset_bounds_ascending() {
+        range_case(false, true);
+        range_case(false, false);
+    }
+
+    // @harness tiers=thorough timeout=2400
+    // @encodes physical::operators::window::range_offset_bound, physical::operators::window::range_offset_end, physical::operators::window::range_frame_key, physical::operators::window::range_key
+    // @bounds as range_offset_bounds_ascending with ORDER BY ... DESC
+    // @oracle mirrored inclusive bounds
+    // @unwindset range_offset_bound:5 range_offset_end:5
+    #[kani::proof]
+    #[kani::unwind(5)]
+    fn range_offset_bounds_descending() {
+        range_case(true, true);
+        range_case(true, false);
+    }
+
     // @playback
 }
